@@ -300,26 +300,28 @@ def pagination_more(ck):
         n += 1
         ck.oblige('C19.pagination.once.vaults', p, sorted(p.extra['seen']) != sorted('vault_' + nm for nm in names), 'paging through the vault registry with any page size returns every vault exactly once')
     ck.require(n >= 1, 'vault pagination: no complete path')
+    lps = [('native', 'uatom'), ('cw20', 'lp_token_a'), ('native', 'uluna'), ('cw20', 'lp_token_b')]
     def body_i(it):
         it.extra = {}; c = it.ctx; C16.ifactory_setup(it); env = mk_env(it, 10**18)
-        it.world.map('incentive_mappings', [([Str(nm)], ADDR('incentive_' + nm)) for nm in names])
+        keyof = lambda kind, nm: Str(nm, canon=True) if kind == 'cw20' else Str(nm)
+        it.world.map('incentive_mappings', [([keyof(k, nm)], ADDR('incentive_' + nm)) for k, nm in lps])
+        by_bytes = {raw_bytes(keyof(k, nm)): (k, nm) for k, nm in lps}
         lim = c.sym('limit', 32); c.assume(lim >= 1)
         seen = []; cursor = NONE()
-        for rnd in range(4):
+        for rnd in range(5):
             q = enter(it, 'incentive_factory', 'query', env, None, it.mkv(LI.IF + 'QueryMsg', 'Incentives', start_after=cursor, limit=SOME(lim)))
             if q.variant != 'Ok': raise PathPruned()
             page = q.fields[0].fields[0].payload.items if isinstance(q.fields[0].fields[0].payload, VecV) else q.fields[0].fields[0].payload.fields[0].items
             if not page: break
             seen += [deref(x.fields[0]).fields[0].s for x in page]
-            last_ref = deref(page[-1].fields[1])
-            cursor = SOME(ainfo(it, ('native', last_ref.s)))
+            cursor = SOME(ainfo(it, by_bytes[raw_bytes(deref(page[-1].fields[1]))]))        # the client pages on with the LP asset of the last entry
         it.extra['seen'] = seen
         return OK(UNIT())
     n = 0
     for p in ck.explore(progi, body_i, 'incentive_factory.pagination', unroll=80):
         if p.kind != 'ret': continue
         n += 1
-        ck.oblige('C19.pagination.once.incentives', p, sorted(p.extra['seen']) != sorted('incentive_' + nm for nm in names), 'paging through the incentive registry with any page size returns every entry exactly once')
+        ck.oblige('C19.pagination.once.incentives', p, sorted(p.extra['seen']) != sorted('incentive_' + nm for _, nm in lps), 'paging through the incentive registry (native and cw20 LP assets) with any page size returns every entry exactly once')
     ck.require(n >= 1, 'incentive pagination: no complete path')
 
 
